@@ -93,6 +93,62 @@ ReqCsrRoundTrip(a, o) ==
   <<"C07.roundtrip_unsupported_refused", ~WithinParserSupport(p) => b.k # "ok">>
   }
 
+(* ---- C06: parsing a request and issuing from it ------------------------------------------------ *)
+(* a = [base, mut, indep (length-only split + independent signature verdict), req (strict decoder's view)] *)
+NoDupSeq(s) == \A i, j \in DOMAIN s : s[i] = s[j] => i = j
+NoRepeatedTy(dn) == \A i, j \in DOMAIN dn : dn[i].ty = dn[j].ty => i = j
+
+(* everything the request asks for can be carried into a certificate by rcgen *)
+Carriable(r) ==
+  /\ r.nExtReqAttrs <= 1 /\ r.nExtReqValues <= 1
+  /\ \A i \in DOMAIN r.extOids : r.extOids[i] \in {OidSan, OidKu, OidEku}
+  /\ NoDupSeq(r.extOids)
+  /\ \A i \in DOMAIN r.eku : r.eku[i] \in StdEkuOids
+  /\ ~r.undecodableExt
+  /\ NoRepeatedTy(r.subject) /\ ~r.subjectMulti
+
+ReqCsrParse(a, out, o) ==
+  IF out # "Ok" THEN {}
+  ELSE {
+    <<"C06.accept_implies_signature_valid", a.indep.splitOk /\ a.indep.sigValid>>,
+    <<"C06.accept_implies_alg_fits_key", o.alg \in AlgNames /\ Fits(a.indep.keyType, o.alg)>>,
+    <<"C06.accepted_key_is_embedded_key", a.req.k = "ok" => o.keyRaw = a.req.keyRaw>>,
+    <<"C06.unsupported_request_rejected", a.req.k = "ok" => Carriable(a.req)>>,
+    <<"C06.accepted_content_eq_requested", a.req.k = "ok" =>
+        /\ o.subject = a.req.subject
+        /\ o.sans = a.req.sans
+        /\ SeqRange(o.ku) = SeqRange(a.req.ku)
+        /\ SeqRange(o.eku) = SeqRange(a.req.eku)>>,
+    <<"C06.pem_der_agree", o.pemAgrees>>
+  }
+
+ReqCsrIssue(a, out, o) ==
+  IF out # "Ok" THEN { <<"C06.issuance_from_accepted_request_total", FALSE>> }
+  ELSE IF ~o.parseOk THEN { <<"C06.issued_certificate_decodable", FALSE>> }
+  ELSE LET x == o.exts IN {
+    <<"C06.spki_byte_identical", o.spki.raw = a.indep.spki>>,
+    <<"C06.issued_subject_eq", a.req.k = "ok" => o.subject = a.req.subject>>,
+    <<"C06.issued_san_eq", a.req.k = "ok" =>
+        /\ Count(x, OidSan) = (IF a.req.sans # <<>> THEN 1 ELSE 0)
+        /\ (a.req.sans # <<>> /\ Has(x, OidSan) => Ext(x, OidSan).kind = "san" /\ Ext(x, OidSan).names = a.req.sans)>>,
+    <<"C06.issued_ku_eq", a.req.k = "ok" =>
+        /\ Count(x, OidKu) = (IF a.req.ku # <<>> THEN 1 ELSE 0)
+        /\ (a.req.ku # <<>> /\ Has(x, OidKu) => Ext(x, OidKu).kind = "ku" /\ SeqRange(Ext(x, OidKu).bits) = SeqRange(a.req.ku))>>,
+    <<"C06.issued_eku_eq", a.req.k = "ok" =>
+        /\ Count(x, OidEku) = (IF a.req.eku # <<>> THEN 1 ELSE 0)
+        /\ (a.req.eku # <<>> /\ Has(x, OidEku) => Ext(x, OidEku).kind = "eku" /\ SeqRange(Ext(x, OidEku).oids) = SeqRange(a.req.eku))>>,
+    <<"C03.issuer_name_eq_issuer_subject", o.issuerRaw = a.issuerRaw>>,
+    <<"C01.sig_verifies_over_embedded_tbs", o.sigOk.ring \in {"ok", "na"} /\ o.sigOk.openssl = "ok">>,
+    <<"C04.der_strict", o.derStrict = <<>> >>
+  }
+
+(* implementation-shaped acceptance rule (csr.rs from_der); variants for the self-test *)
+ImplCsrAccepts(sigValid, sigAlgKnown, keyFitsAlg, carriable, variant) ==
+  /\ (variant = "skip-verify" \/ sigValid)
+  /\ sigAlgKnown
+  /\ (variant = "D6-alg-from-signature-oid-only" \/ keyFitsAlg)
+  /\ (variant = "D14-partially-honoured" \/ carriable)
+
 (* ---- implementation-shaped rule ---- *)
 ImplCsrRefuses(p, variant) ==
   \/ p.serial.k = "given"
